@@ -390,3 +390,15 @@ package kv
 //@   ensures failed: imp(err != nil, result0.Key == nil && result0.NewValue == nil && result0.OldValue == nil && old(gf(dc.DiffCursor, "dpos")) <= gf(dc.DiffCursor, "dpos") && gf(dc.DiffCursor, "dpos") <= dN(gf(dc.DiffCursor, "dsnap")))
 //@   ensures end-keeps-place: imp(err == mast.ErrNoMoreDiffs, gf(dc.DiffCursor, "dpos") == old(gf(dc.DiffCursor, "dpos")))
 //@   ensures end-only-at-end: imp(err == mast.ErrNoMoreDiffs, old(gf(dc.DiffCursor, "dpos")) == dN(gf(dc.DiffCursor, "dsnap")))
+
+// Roots (C11): the names of the versions this handle is a merge of; refused on
+// a writable handle with uncommitted changes (the names would not describe
+// what the handle shows); no request is issued.
+//@ func (*DB).Roots
+//@   requires dbOK(s)
+//@   modifies nothing
+//@   ensures dirty-refused: imp(!s.readonly && (s.tombstoned || mastDirty(*s.crdt.Mast)), err != nil)
+//@   ensures names-are-merged-versions: forall j int :: imp(err == nil && 0 <= j && j < len(result0), result0[j] != "" && has(s.mergedRoots, result0[j]))
+//@   ensures sorted: forall j int :: imp(err == nil && 0 <= j && j + 1 < len(result0), result0[j] <= result0[j+1])
+//@   loop 1 invariant forall j int :: imp(0 <= j && j < len(roots), roots[j] != "" && has(s.mergedRoots, roots[j]))
+//@   loop 1 invariant len(roots) == 0 || fresh(roots)
